@@ -205,7 +205,8 @@ fn key_closure<C: KeyColl>(cfg: &Cfg, rep: &mut Report) {
     let max_states = cfg.num("max_states", 400_000) as usize;
     let do_export = judge.export || judge.capacity;
     let fault_mode = cfg.flag("fault");
-    let mon = if fault_mode { KMon::none() } else { mon };
+    let twin_mode = cfg.flag("twin");
+    let mon = if fault_mode || twin_mode { KMon::none() } else { mon };
     let mut all_exhaustive = true;
     for (si, &(u, r, hint)) in sets.iter().enumerate() {
         if emit_for.is_none() && si as u64 % cfg.nshards != cfg.shard {
@@ -241,6 +242,34 @@ fn key_closure<C: KeyColl>(cfg: &Cfg, rep: &mut Report) {
                             println!("OP {}", o.line());
                         }
                         return;
+                    }
+                }
+                if twin_mode && emit_for.is_none() {
+                    // C12: clear this state (expired-but-unremoved entries included), restart the
+                    // clock at 0, and drive it and a fresh twin with the same suffixes
+                    let pre: Vec<String> = path_of(&nodes, idx).iter().map(|o| o.line()).collect();
+                    let ctor = format!("hint={} twin_hint={}", hint, [0usize, 1, 8, 9, 300][idx as usize % 5]);
+                    for variant in 0..2 {
+                        let mut suf: Vec<KOp> = vec![KOp::Empty];
+                        let order: Vec<i32> = if variant == 0 { keys.clone() } else { keys.iter().rev().copied().collect() };
+                        let mut ts = 0;
+                        for (n, &k) in order.iter().enumerate() {
+                            suf.push(KOp::Ins { k, exp: ts + 1 + (n as i32 % (r + 1)), t: ts });
+                            suf.push(KOp::Fle { t: ts, k: k + 1 });
+                            suf.push(KOp::Get { t: ts, k });
+                            if n % 2 == 1 {
+                                ts += 1;
+                            }
+                        }
+                        for p in 0..=2 * u {
+                            suf.push(KOp::Fl { t: ts, k: p });
+                            suf.push(KOp::Fleb { t: ts, k: p, mode: (p % 3) as u8 });
+                        }
+                        suf.push(KOp::Empty);
+                        suf.push(KOp::Export { t: ts + variant });
+                        let suf_lines: Vec<String> = suf.iter().map(|o| o.line()).collect();
+                        crate::misc_suites::twin_run(C::NAME, &ctor, &pre, &suf_lines, rep, hist_base | idx as u64);
+                        rep.histories += 1;
                     }
                 }
                 if fault_mode && emit_for.is_none() {
